@@ -16,7 +16,7 @@ RULE = ("Generated structures (1-12 atoms; orthorhombic, LAMMPS-triclinic, arbit
         "t3=save(load(t2)): b is compared with a field by field (fractional coordinates modulo 1 to half the printed "
         "unit), t2 with t1 and t3 with t2 token-wise (byte-wise for orthorhombic cells with atoms strictly inside), "
         "ASE's CIF reader must agree with mofun's on cell and positions, and reading variants built from mofun's own "
-        "file at token level - (su) parentheses on cell and coordinate numbers, 'P1' spelling, no symmetry tag, "
+        "file at token level - (su) parentheses on cell and coordinate numbers, numbers in exponent notation, 'P1' spelling, no symmetry tag, "
         "non-P1 space-group names (must be rejected) - are loaded. History: the written object is edited where it is and written again to a path that was "
         "already written and read once; the reading of that path is compared with the object as it is then. Non-trivial: triclinic cell or out-of-cell "
         "coordinates or at least two loops with extra columns; distinct by generator seed.")
@@ -193,6 +193,40 @@ def su_variant(t1, rng):
     return cifcmp.emit({"block": doc["block"], "items": items, "loops": loops})
 
 
+def exp_variant(t1, rng):
+    """the same file with some numbers in exponent notation (a legal CIF number form: 1.25E+1, 2.5e-1(3))"""
+    doc = cifcmp.parse(t1)
+
+    def expo(v, su):
+        x = float(v)
+        if x == 0:
+            return v
+        e = int(np.floor(np.log10(abs(x)))) + int(rng.integers(-1, 2))
+        digits = len(v.split(".")[1]) if "." in v else 0
+        mant = "%.*f" % (digits + max(e, 0) + 2, x / 10.0 ** e)
+        if abs(float(mant) * 10.0 ** e - x) > 1e-12 * max(1.0, abs(x)):
+            return v
+        out = "%s%s%+d" % (mant, "E" if rng.integers(2) else "e", e)
+        return out + ("(%d)" % rng.integers(1, 30) if su else "")
+    items = []
+    for tag, v in doc["items"]:
+        if tag.lower().startswith("_cell_") and cifcmp.is_num(v) and rng.integers(2):
+            v = expo(v, bool(rng.integers(2)))
+        items.append((tag, v))
+    loops = []
+    for tags, rows in doc["loops"]:
+        cols = [i for i, t in enumerate(tags) if t.lower() in ("_atom_site_fract_x", "_atom_site_fract_y", "_atom_site_fract_z", "_atom_site_cartn_x", "_atom_site_cartn_y", "_atom_site_cartn_z")]
+        rows2 = []
+        for r in rows:
+            r = list(r)
+            for c in cols:
+                if rng.integers(2):
+                    r[c] = expo(r[c], bool(rng.integers(3) == 0))
+            rows2.append(r)
+        loops.append((tags, rows2))
+    return cifcmp.emit({"block": doc["block"], "items": items, "loops": loops})
+
+
 def sg_variant(t1, name):
     doc = cifcmp.parse(t1)
     if name is None:
@@ -285,6 +319,15 @@ def run_case(case, ctx):
         if type(e).__name__ == "PostBroken":
             raise
         fail("file with standard-uncertainty parentheses raised %s: %s" % (type(e).__name__, str(e)[:150]), "su")
+    try:
+        be = load(exp_variant(t1, rng))
+        if not same_structure(be, b, tol=1e-7):
+            fail("file with numbers in exponent notation reads differently", "exponent")
+        st.count("exponent_variants")
+    except Exception as e:
+        if type(e).__name__ == "PostBroken":
+            raise
+        fail("file with numbers in exponent notation raised %s: %s" % (type(e).__name__, str(e)[:150]), "exponent")
     for name in ("P1", None):
         try:
             bv = load(sg_variant(t1, name))
@@ -379,7 +422,7 @@ def requirements(stats, tier):
         need.append("impropers together with extra torsion columns observed fewer than 3 times")
     if stats.get("structures_with_two_atom_types_of_one_element_and_terms") < 10:
         need.append("structures in which two atom types share an element (and terms exist): %d" % stats.get("structures_with_two_atom_types_of_one_element_and_terms"))
-    if stats.get("non_p1_rejected") < 50 or stats.get("su_variants") < 50:
+    if stats.get("non_p1_rejected") < 50 or stats.get("su_variants") < 50 or stats.get("exponent_variants") < 50:
         need.append("reading variants not exercised")
     if stats.get("ase_agreed") + stats.get("ase_not_consulted_(two sites within its merging distance)") < 0.8 * stats.get("files_written"):
         need.append("ASE usable for only %d of %d files (%s)" % (stats.get("ase_agreed"), stats.get("files_written"), sorted(stats.sets.get("ase_error", []))[:2]))
